@@ -51,6 +51,19 @@ def serverAcceptsClient (mode : ClientAuthMode) (presented chains : Bool) : Bool
   | .requireAndVerify => presented && chains
   | .other _ => presented
 
+/-- a value of the TLS-offloading client certificate header: how many certificates it parses to and (for one) whose it is -/
+inductive HeaderVal where
+  | cert (owner : String)     -- exactly one certificate
+  | many                      -- more than one certificate in one value
+  | garbage
+  deriving DecidableEq, Repr, Inhabited
+
+/-- `tlsOffloadingAuthenticator.authenticate`: EXACTLY one header value, holding exactly one certificate (a proxy that
+    appends its header after a client-supplied one produces two values: refused) -/
+def offloadedCertificate : List HeaderVal → Option String
+  | [.cert owner] => some owner
+  | _ => none
+
 /-- which `grpc.Authenticator` the connection manager is given -/
 inductive AuthKind where
   | tls | dummy
